@@ -1540,11 +1540,12 @@ fn cast_num(
             // float to int
 
             // cranelift can only convert floats to i32 or i64, so we do that first,
-            // then cast the i32 or i64 to the actual one we want
-            let int_to = match cast_from.bit_width() {
-                32 => types::I32,
-                64 => types::I64,
-                _ => unreachable!(),
+            // then cast the i32 or i64 to the actual one we want.
+            // the intermediate int has to be able to hold every value of the target type,
+            // whatever the width of the float is
+            let int_to = match cast_to.bit_width() {
+                8 | 16 | 32 => types::I32,
+                _ => types::I64,
             };
 
             let first_cast = if cast_to.signed {
@@ -1554,7 +1555,7 @@ fn cast_num(
             };
 
             // now we can convert the `first_cast` int value to the actual int type we want
-            match cast_from.bit_width().cmp(&cast_to.bit_width()) {
+            match (int_to.bits() as u8).cmp(&cast_to.bit_width()) {
                 std::cmp::Ordering::Less if cast_to.signed => {
                     builder.ins().sextend(cast_to.ty, first_cast)
                 }
